@@ -59,7 +59,19 @@ def choose_parent(rng, kind):
 
 def base_input(rng):
     """Returns (kind, bytes)."""
-    k = rng.randrange(14)
+    k = rng.randrange(16)
+    if k == 14:
+        # combined diff coloured as git does, some lines in a moved-line colour (kept raw by delta)
+        np_ = rng.choice([2, 2, 3])
+        lines, _m, _p = corpus.gen_combined(rng, conflict=rng.random() < 0.4, nparents=np_)
+        col = corpus.git_colorize_combined(lines, np_, rng.choice(['m', '0m']))
+        col = [l.replace('\x1b[32m', '\x1b[1;35m').replace('\x1b[31m', '\x1b[1;34m') if rng.random() < 0.3 else l for l in col]
+        return 'combined-colored', ('\n'.join(col) + '\n').encode()
+    if k == 15:
+        d = gen.gen_diff(rng)
+        col = corpus.git_colorize(d.lines(), rng.choice(['default', 'ws']))
+        col = [l.replace('\x1b[32m', '\x1b[%sm' % rng.choice(['1;35', '1;36', '38;5;208', '7;32'])) if rng.random() < 0.3 else l for l in col]
+        return 'git-diff-moved-colors', ('\n'.join(col) + '\n').encode()
     if k <= 2:
         d = gen.gen_diff(rng, maxlen=rng.choice([40, 120]))
         return 'git-diff', d.text().encode()
